@@ -35,6 +35,8 @@ type File struct {
 	written  int
 	wfired   bool
 	isStdout bool
+	isStderr bool
+	wdi      int
 	// pass-through (no scenario)
 	pass *os.File
 }
@@ -44,6 +46,7 @@ var (
 	created    []*Created
 	stdinFile  *File
 	stdoutFile *File
+	stderrFile *File
 )
 
 // Stdout replaces os.Stdout where crd names it explicitly (the writer its
@@ -367,9 +370,39 @@ func (f *File) Read(p []byte) (int, error) {
 	return n, nil
 }
 
+// Stderr replaces os.Stderr where crd names it (the writer handed to the log
+// handler). The bytes go to the real descriptor 2. A slow consumer of the log
+// only advances the simulated clock: the log handler holds a real lock while
+// it writes, so the task must not hand over the baton here; timers that
+// became due fire and their goroutines run at the next scheduling point.
+func Stderr() *File {
+	if stderrFile != nil {
+		return stderrFile
+	}
+	stderrFile = &File{name: "/dev/stderr", real: os.Stderr, isStderr: true}
+	if active {
+		stderrFile.wplan = step.Stderr
+	}
+	return stderrFile
+}
+
 func (f *File) Write(p []byte) (int, error) {
 	if f.real != nil && f.closed {
 		return 0, &fs.PathError{Op: "write", Path: f.name, Err: fs.ErrClosed}
+	}
+	if f.real != nil && f.wplan != nil && len(f.wplan.DelaysUs) > 0 {
+		d := f.wplan.DelaysUs[f.wdi%len(f.wplan.DelaysUs)]
+		f.wdi++
+		if d > 0 {
+			journal.DelayedWrites++
+			if f.isStderr {
+				simOffset += time.Duration(d) * time.Microsecond
+				journal.JumpedUs += d
+				fireDue()
+			} else {
+				Sleep(time.Duration(d) * time.Microsecond)
+			}
+		}
 	}
 	if f.real != nil && f.wplan != nil && f.wplan.ErrNo != "" {
 		room := f.wplan.ErrAfter - f.written
@@ -411,6 +444,9 @@ func (f *File) Close() error {
 	if f.real != nil {
 		if f.cr != nil {
 			f.cr.Closed = true
+		}
+		if f.isStderr {
+			return nil // descriptor 2 stays open for the runtime's own messages
 		}
 		return f.real.Close()
 	}
@@ -484,6 +520,9 @@ func (f *File) Seek(offset int64, whence int) (int64, error) {
 func (f *File) Fd() uintptr {
 	if f.isStdout {
 		return 1
+	}
+	if f.isStderr {
+		return 2
 	}
 	return ^uintptr(0)
 }
